@@ -5,5 +5,5 @@ if [ "$1" = "--replay" ] && [ -n "$2" ]; then
   case "$2" in /*) f="$2";; *) f="$(pwd)/$2";; esac
   set -- --replay "$f"
 fi
-cd /verif/harness || exit 2
+cd "${VERIF_DIR:-/verif}/harness" || exit 2
 exec go run ./cmd/verifrun "$@"
